@@ -571,7 +571,8 @@ def _make_epc_qr_data(name, iban, amount, text=None, reference=None, bic=None,
         raise ValueError(f'Invalid BIC, should be 8 or 11 characters long, got "{bic}"')
     if purpose and len(purpose) != 4:
         raise ValueError(f'Invalid purpose, 4 characters are allowed, got "{purpose}"')
-    amount = decimal.Decimal(amount)
+    # A float is taken by its shortest decimal representation (999999999.99 is in range)
+    amount = decimal.Decimal(repr(amount) if isinstance(amount, float) else amount)
     if not min_amount <= amount <= max_amount:
         raise ValueError(f'Invalid amount, must be in bigger or equal {min_amount} and less or equal {max_amount}')
     tmp_data = ['BCD',  # Service tag
